@@ -707,6 +707,11 @@ type scenario struct {
 	FaultErr    string
 	faultInject string
 
+	// Foreign: files that lie in the storage directory under names hc itself never writes (written by an older version
+	// or another tool), e.g. the name of a key WITH the characters hc removes from file names.  What the key reads as
+	// before the operation is observed, not assumed; after a kill it reads as that or as the new value.
+	Foreign map[string][]byte
+
 	// Links: every key file of the storage directory is a symbolic link to a regular file in another directory (a
 	// deployment that keeps the files on a persistent partition).  What the link becomes is the implementation's
 	// choice; the value read back through the API after a kill is not.
@@ -785,6 +790,24 @@ func buildScenarios(r *vf.Run) []*scenario {
 		sc.WantNew = &kv{Present: true, Val: newVal}
 		out = append(out, sc)
 	}
+	// keys with a colon (hc removes it from the file name) next to a file that carries the colon in its name
+	addSetColon := func(withOwnFile bool, nw int) {
+		key := "AA:BB:0" + fmt.Sprint(nw%7) + ".serial"
+		sc := &scenario{Kind: "set", Class: "key-with-colon", Target: key, ID: fmt.Sprintf("set-colon-own%v-new%d", withOwnFile, nw)}
+		neighbours(sc)
+		sc.Foreign = map[string][]byte{key: []byte("VALUE-UNDER-THE-NAME-WITH-COLONS")}
+		if withOwnFile {
+			sc.PrepKeys[key] = randBytes(rnd, 20)
+			sc.Class = "key-with-colon+own-file"
+		}
+		newVal := randBytes(rnd, nw)
+		sc.Op = childOp{Op: "set", Key: key, Value: newVal}
+		sc.WantNew = &kv{Present: true, Val: newVal}
+		out = append(out, sc)
+	}
+	addSetColon(false, 40)
+	addSetColon(true, 5)
+	addSetColon(false, 3000)
 	addDelete := func(old int) {
 		sc := &scenario{Kind: "delete", Class: "existing", Target: "k", ID: fmt.Sprintf("delete-old%d", old)}
 		neighbours(sc)
@@ -954,6 +977,11 @@ func (sc *scenario) prepare(root string) error {
 			return err
 		}
 	}
+	for name, val := range sc.Foreign {
+		if err := os.WriteFile(filepath.Join(tpl, name), val, 0o644); err != nil {
+			return err
+		}
+	}
 	if sc.PrepVersion != "" {
 		// hc wrote "1" on the first start; give the stored number the wanted width by removing the key first
 		// (so that preparation does not depend on how Set treats an existing value)
@@ -1097,7 +1125,8 @@ func (sc *scenario) expect(k string, got kv, crashed bool) expectation {
 	}
 	switch sc.Kind {
 	case "set", "delete":
-		if k == sc.Target {
+		// (hc removes ':' from file names: the key without its colons names the same file, and is what a listing reports)
+		if k == sc.Target || k == strings.ReplaceAll(sc.Target, ":", "") {
 			e.nw = sc.WantNew
 			e.newDesc = sc.WantNew.String()
 			return e
